@@ -921,6 +921,46 @@ fn parent_main(def: &'static CheckDef, args: &Args) -> ! {
             }
         }
     }
+    // A check that is made of several binaries (C05: broker level in vbus, client level in vapi)
+    // runs them one after the other; all but the last write a part file (VERIF_PART=<name>), the
+    // last one merges the parts (VERIF_MERGE_PARTS=<name>,..) into the evidence file.
+    let mut evaluations = evaluations;
+    let mut distinct_total = fps.len() as u64;
+    let mut parts_violations = 0u64;
+    let mut parts_sigs: Vec<String> = vec![];
+    let mut parts_wall = 0.0f64;
+    if let Ok(names) = std::env::var("VERIF_MERGE_PARTS") {
+        let mut parts = serde_json::Map::new();
+        for name in names.split(',').filter(|n| !n.is_empty()) {
+            let pp = verif_root().join("work").join(format!("{}.part-{}.json", def.id, name));
+            match std::fs::read_to_string(&pp).ok().and_then(|t| serde_json::from_str::<J>(&t).ok()) {
+                Some(pj) => {
+                    evaluations += pj["coverage"]["evaluations"].as_u64().unwrap_or(0);
+                    distinct_total += pj["coverage"]["distinct_nontrivial"].as_u64().unwrap_or(0);
+                    parts_violations += pj["violations"].as_u64().unwrap_or(0);
+                    parts_wall += pj["wall_s"].as_f64().unwrap_or(0.0);
+                    if let Some(a) = pj["violation_signatures"].as_array() {
+                        parts_sigs.extend(a.iter().filter_map(|x| x.as_str().map(|s| s.to_string())));
+                    }
+                    parts.insert(name.to_string(), json!({
+                        "coverage": pj["coverage"], "assumptions": pj["assumptions"], "wall_s": pj["wall_s"],
+                        "violations": pj["violations"], "violation_signatures": pj["violation_signatures"],
+                        "generator_unhealthy": pj["generator_unhealthy"],
+                    }));
+                    let _ = std::fs::remove_file(&pp);
+                }
+                None => {
+                    eprintln!("harness: part {} of {} is missing ({})", name, def.id, pp.display());
+                    infra_trouble = true;
+                }
+            }
+        }
+        if let Some(obj) = coverage.as_object_mut() {
+            obj.insert("evaluations".into(), json!(evaluations));
+            obj.insert("distinct_nontrivial".into(), json!(distinct_total));
+            obj.insert("parts".into(), J::Object(parts));
+        }
+    }
     let evidence = json!({
         "property_id": def.id,
         "tier": args.tier.name(),
@@ -928,14 +968,17 @@ fn parent_main(def: &'static CheckDef, args: &Args) -> ! {
         "level": def.level,
         "coverage": coverage,
         "assumptions": def.assumptions,
-        "wall_s": wall,
-        "violations": violations.len(),
-        "violation_signatures": violations.iter().map(|v| v.signature.clone()).collect::<Vec<_>>(),
+        "wall_s": wall + parts_wall,
+        "violations": violations.len() as u64 + parts_violations,
+        "violation_signatures": violations.iter().map(|v| v.signature.clone()).chain(parts_sigs.iter().cloned()).collect::<Vec<_>>(),
         "generator_unhealthy": unhealthy,
     });
     let evdir = verif_root().join("evidence");
     let _ = std::fs::create_dir_all(&evdir);
-    let evpath = evdir.join(format!("{}.json", def.id));
+    let evpath = match std::env::var("VERIF_PART") {
+        Ok(name) if !name.is_empty() => verif_root().join("work").join(format!("{}.part-{}.json", def.id, name)),
+        _ => evdir.join(format!("{}.json", def.id)),
+    };
     if infra_trouble && violations.is_empty() {
         eprintln!("harness: infrastructure trouble, result inconclusive");
         std::process::exit(2);
@@ -953,7 +996,7 @@ fn parent_main(def: &'static CheckDef, args: &Args) -> ! {
         args.tier.name(),
         args.seed as i64,
         evaluations,
-        fps.len(),
+        distinct_total,
         wall
     );
     for (sig, n) in &known_hits {
